@@ -585,7 +585,7 @@ pub fn run(tier: Tier) -> i32 {
             name: format!("lib: operation-sequence search from {:?}", x.shape),
             evaluations: e.transitions,
             nontrivial: e.transitions,
-            note: format!("{} states, {} transitions, depth bound {depth} (max depth reached {}), frontier emptied below the bound: {}; operations: marginalize (one axis, two axes in both orders), project (one axis -1, all axes to 1), mask, normalize, fold; after every transition shape, every value (flat and through multi-index access), element count, total and every axis sum are compared with the reference", e.states, e.transitions, e.max_depth, e.closed),
+            note: format!("{} states, {} transitions, depth bound {depth} (max depth reached {}), frontier emptied below the bound: {}; operations: marginalize (one axis, two axes in both orders), project (one axis -1, all axes to 1), mask (through inner_mut and through the indexing operator), scale one entry through the indexing operator, normalize in place, into_normalized (the value is a frequency spectrum from then on; every operation is also taken in that state), clone_from into a spectrum of the reversed shape, fold; after every transition shape, every value (flat and through multi-index access), element count, total and every axis sum are compared with the reference", e.states, e.transitions, e.max_depth, e.closed),
             exhaustive: true,
             extra: vec![("states".into(), J::Int(e.states as i64)), ("transitions".into(), J::Int(e.transitions as i64)), ("depth_bound".into(), J::u(depth)), ("closed_below_bound".into(), J::Bool(e.closed))],
         });
